@@ -43,9 +43,7 @@ func (x *Exec) callWith(site ssa.Instruction, c *ssa.CallCommon, fv Value, args 
 	case *Closure:
 		return x.static(site, f.Fn, f.Bindings, args, st)
 	case Term:
-		// unknown function value
-		x.note("call through unknown function value havocs everything")
-		return x.havocCall(site, c.Signature(), "fnvalue", args, nil, st, true)
+		return x.dispatchCall(site, c, f, args, st)
 	case poison:
 		x.fail("function value %s differs across paths", f.what)
 	}
@@ -678,7 +676,7 @@ func (x *Exec) modularCall(site ssa.Instruction, fn *ssa.Function, fc *FuncContr
 	}
 	if !x.pure {
 		for _, en := range fc.Ensures {
-			env := &SpecEnv{u: u, x: x, pkg: pkg, vars: postVars, bound: map[string]SVal{}, cur: st, old: pre, reach: x.curBlockReach}
+			env := &SpecEnv{u: u, x: x, pkg: pkg, vars: postVars, bound: map[string]SVal{}, cur: st, old: pre, reach: x.curBlockReach, callSite: true}
 			g, err := env.EvalBool(en.Expr)
 			if err != nil {
 				u.Errorf("%s: ensures %q at call in %s: %v", full, en.Text, x.fn, err)
@@ -978,9 +976,18 @@ func unmarshalLike(argIdx int) intrinsic {
 		if l, ok := dv.(*Loc); ok && l.Kind == "cell" {
 			nv := w.Fresh("decoded."+cellName(l.Key), w.SortOf(l.elemType()))
 			// new pointers inside are valid
+			allocBefore := st.alloc
 			st.alloc = u.W.Fresh("alloc", SInt)
+			x.assume(Ge(st.alloc, allocBefore))
+			oldv := x.load(l, st)
 			x.store(l, nv, st)
 			x.assumeTypeInv(nv, l.elemType(), x.curBlockReach, st)
+			if _, isSl := l.elemType().Underlying().(*types.Slice); isSl {
+				// decoding into a nil slice allocates: the result is fresh memory
+				if ot, ok := oldv.(Term); ok {
+					x.assume(Implies(Eq(SlCap(ot), IntLit(0)), Or(Ge(PBase(SlPtr(nv)), allocBefore), Eq(SlCap(nv), IntLit(0)))))
+				}
+			}
 			return mkres()
 		}
 		ptr := x.term(dv)
@@ -1026,6 +1033,13 @@ func unmarshalLike(argIdx int) intrinsic {
 		st.heaps = map[string]Term{}
 		aa := st.alloc
 		st.gen = &Gen{kind: "havoc", parent: pre, guard: x.curBlockReach, tag: "dec", allocBefore: allocBefore, writable: writable, allocAfter: &aa}
+		if _, isSl := T.Underlying().(*types.Slice); isSl {
+			// decoding into a nil slice allocates: the result is fresh memory
+			hn, hs := x.heapOf(T)
+			oldv := Select(pre.Heap(hn, hs), ptr)
+			nv := Select(st.Heap(hn, hs), ptr)
+			x.assume(Implies(Eq(SlCap(oldv), IntLit(0)), Or(Ge(PBase(SlPtr(nv)), allocBefore), Eq(SlCap(nv), IntLit(0)))))
+		}
 		return mkres()
 	}
 }
@@ -1048,4 +1062,78 @@ func stringsMap(x *Exec, site ssa.Instruction, fn *ssa.Function, args []Value, s
 	}
 	x.u.usedPureUF["strings.Map$"+name] = true
 	return w.UF("strings.Map$"+name, SStr, x.term(args[1]))
+}
+
+// dispatchCall: a call through a function value held in memory. The value is one of the
+// closures registered in this unit (those that were converted to first-class values) or
+// something unknown; each case is executed under its own path condition and the results merged.
+func (x *Exec) dispatchCall(site ssa.Instruction, c *ssa.CallCommon, fv Term, args []Value, st *State) Value {
+	u := x.u
+	sig := c.Signature()
+	var cands []*regClosure
+	for _, r := range u.closures {
+		rs := r.c.Fn.Signature
+		if rs.Params().Len()-0 == sig.Params().Len() && rs.Results().Len() == sig.Results().Len() || len(r.c.Bindings) > 0 && rs.Results().Len() == sig.Results().Len() {
+			if types.Identical(types.NewSignatureType(nil, nil, nil, rs.Params(), rs.Results(), rs.Variadic()), types.NewSignatureType(nil, nil, nil, sig.Params(), sig.Results(), sig.Variadic())) {
+				cands = append(cands, r)
+			}
+		}
+	}
+	if len(cands) == 0 || x.pure {
+		x.note("call through unknown function value havocs everything")
+		return x.havocCall(site, sig, "fnvalue", args, nil, st, true)
+	}
+	reach := x.curBlockReach
+	var edges []mergeEdge
+	var results [][]Value
+	none := []Term{}
+	for _, r := range cands {
+		cond := Eq(fv, r.name)
+		none = append(none, Not(cond))
+		s2 := st.Clone()
+		x.curBlockReach = And(reach, cond)
+		if len(x.curBlockReach.S) > 40 {
+			rb := u.W.Fresh("r.dispatch", SBool)
+			u.AssumeRaw(Eq(rb, x.curBlockReach))
+			x.curBlockReach = rb
+		}
+		v := x.static(site, r.c.Fn, r.c.Bindings, args, s2)
+		edges = append(edges, mergeEdge{x.curBlockReach, s2})
+		results = append(results, flattenResult(v))
+	}
+	// unknown callee
+	x.curBlockReach = And(append([]Term{reach}, none...)...)
+	if len(x.curBlockReach.S) > 40 {
+		rb := u.W.Fresh("r.dispatch", SBool)
+		u.AssumeRaw(Eq(rb, x.curBlockReach))
+		x.curBlockReach = rb
+	}
+	s3 := st.Clone()
+	v := x.havocCall(site, sig, "fnvalue", args, nil, s3, true)
+	edges = append(edges, mergeEdge{x.curBlockReach, s3})
+	results = append(results, flattenResult(v))
+	x.curBlockReach = reach
+	x.curInstr = site
+	merged, _ := x.merge(edges, "dispatch")
+	n := sig.Results().Len()
+	vals := make([]Value, n)
+	for i := 0; i < n; i++ {
+		sym := u.W.Fresh("r.dispatch", u.W.SortOf(sig.Results().At(i).Type()))
+		for j, e := range edges {
+			u.AssumeRaw(Implies(e.cond, Eq(sym, x.term(results[j][i]))))
+		}
+		vals[i] = sym
+	}
+	*st = *merged
+	return resultValue(vals)
+}
+
+func flattenResult(v Value) []Value {
+	switch t := v.(type) {
+	case nil:
+		return nil
+	case Tuple:
+		return []Value(t)
+	}
+	return []Value{v}
 }
